@@ -189,6 +189,67 @@ def transform(kind, src):
                 sp.lineno, sp.col_offset = iff.lineno, iff.col_offset
                 sp.end_lineno, sp.end_col_offset = rs.end_lineno, rs.end_col_offset
                 edits.append(Edit(sp, new_txt))
+    if kind == "T15":
+        # a `pass` statement in front of the first real statement of every function
+        lines = src.split("\n")
+        for fn in ast.walk(tree):
+            if isinstance(fn, (ast.FunctionDef, ast.AsyncFunctionDef)):
+                body = [b for b in fn.body if not (isinstance(b, ast.Expr) and isinstance(b.value, ast.Constant))]
+                if body and lines[body[0].lineno - 1][:body[0].col_offset].strip() == "" and not isinstance(body[0], (ast.FunctionDef, ast.ClassDef)) \
+                        and not getattr(body[0], "decorator_list", None):
+                    first = body[0]
+
+                    class Pt:
+                        pass
+                    pt = Pt()
+                    pt.lineno = pt.end_lineno = first.lineno
+                    pt.col_offset = pt.end_col_offset = first.col_offset
+                    edits.append(Edit(pt, "pass\n" + " " * first.col_offset))
+    if kind == "T20":
+        # key order of dict literals and order of keyword arguments reversed (no positional change)
+        for n in ast.walk(tree):
+            if isinstance(n, ast.Dict) and len(n.keys) >= 2 and all(k is not None for k in n.keys) and all(
+                    isinstance(k, ast.Constant) for k in n.keys):
+                items = [f"{bsegment(src, k)}: {bsegment(src, v)}" for k, v in zip(n.keys, n.values)]
+                edits.append(Edit(n, "{" + ", ".join(reversed(items)) + "}"))
+    if kind == "T21":
+        # for i, x in enumerate(S)  ->  for i in range(len(S)): x = S[i]
+        lines = src.split("\n")
+        for n in ast.walk(tree):
+            if isinstance(n, ast.For) and isinstance(n.iter, ast.Call) and isinstance(n.iter.func, ast.Name) and n.iter.func.id == "enumerate" \
+                    and len(n.iter.args) == 1 and not n.iter.keywords and isinstance(n.target, ast.Tuple) and len(n.target.elts) == 2 \
+                    and isinstance(n.target.elts[0], ast.Name) and simple(n.iter.args[0]) and n.body and n.lineno == n.iter.end_lineno \
+                    and lines[n.body[0].lineno - 1][:n.body[0].col_offset].strip() == "":
+                seq = bsegment(src, n.iter.args[0])
+                i = n.target.elts[0].id
+                x = bsegment(src, n.target.elts[1])
+                ind2 = " " * n.body[0].col_offset
+
+                class Hdr:
+                    pass
+                h = Hdr()
+                h.lineno, h.col_offset = n.lineno, n.col_offset
+                h.end_lineno, h.end_col_offset = n.body[0].lineno, n.body[0].col_offset
+                edits.append(Edit(h, f"for {i} in range(len({seq})):\n{ind2}{x} = {seq}[{i}]\n{ind2}"))
+    if kind == "T22":
+        # for k, v in D.items()  ->  for k in D: v = D[k]
+        lines = src.split("\n")
+        for n in ast.walk(tree):
+            if isinstance(n, ast.For) and isinstance(n.iter, ast.Call) and isinstance(n.iter.func, ast.Attribute) and n.iter.func.attr == "items" \
+                    and not n.iter.args and isinstance(n.target, ast.Tuple) and len(n.target.elts) == 2 and isinstance(n.target.elts[0], ast.Name) \
+                    and simple(n.iter.func.value) and n.body and n.lineno == n.iter.end_lineno \
+                    and lines[n.body[0].lineno - 1][:n.body[0].col_offset].strip() == "":
+                d = bsegment(src, n.iter.func.value)
+                k = n.target.elts[0].id
+                v = bsegment(src, n.target.elts[1])
+                ind2 = " " * n.body[0].col_offset
+
+                class Hdr:
+                    pass
+                h = Hdr()
+                h.lineno, h.col_offset = n.lineno, n.col_offset
+                h.end_lineno, h.end_col_offset = n.body[0].lineno, n.body[0].col_offset
+                edits.append(Edit(h, f"for {k} in {d}:\n{ind2}{v} = {d}[{k}]\n{ind2}"))
     if kind == "T8":
         # rename every function-local variable (not a parameter) in functions without nested scopes that could capture it
         for fn in ast.walk(tree):
@@ -281,11 +342,13 @@ def run_one(args):
     return kind, prop, total, ("FALSE-ALARM" if new else "silent"), new
 
 
-KINDS = ["T1", "T2", "T3", "T4", "T5", "T6", "T7", "T8", "T11", "T13"]
+KINDS = ["T1", "T2", "T3", "T4", "T5", "T6", "T7", "T8", "T11", "T13", "T15", "T20", "T21", "T22"]
 KIND_DESC = {"T1": "operands of ==/!= swapped", "T2": "ordering comparisons mirrored", "T3": "`entries += e` written as `entries = entries + e`",
              "T4": "negated test with swapped branches", "T5": "return through a temporary", "T6": "float sums/products of the same field commuted",
              "T7": "pure operands of and/or swapped", "T8": "function-local variables renamed",
-             "T11": "`return A and B` of __eq__ unfolded into guard statements", "T13": "type guard inverted: `if not isinstance: raise` first"}
+             "T11": "`return A and B` of __eq__ unfolded into guard statements", "T13": "type guard inverted: `if not isinstance: raise` first",
+             "T15": "`pass` inserted at the top of every function", "T20": "key order of dict literals reversed",
+             "T21": "enumerate loops rewritten with range(len(...)) and an index", "T22": "`.items()` loops rewritten as key loops with a lookup"}
 
 
 def run_property(prop, jobs=8):
